@@ -41,6 +41,12 @@ package persistence
 //@ prop C13
 //@ ensures[store-read-passthrough] ret0 == ret0(Load) && ret1 == ret1(Load) && arg(Load, 1) == key
 
+//@ func (*ticket).makeCipher
+//@ prop C13 C19 C02
+//@ ensures[a-cipher-or-an-error] (ret1 == nil ==> ret0 != nil) && (ret1 != nil ==> ret0 == nil)
+//@ ensures[the-gcm-cipher-of-the-secret] ret1 == nil ==> ret0 == ret0(NewGCMCipher) && ret1(NewGCMCipher) == nil
+//@ at call NewGCMCipher assert[keyed-with-the-tickets-secret] arg(NewGCMCipher, 0) == t.secret
+
 //@ func (*ticket).loadSession
 //@ safety
 //@ prop C13 C01 C02 C12 C19
